@@ -507,7 +507,8 @@ class SlidingWindow:
 
         """
         if mode == 'strict':
-            return int(np.floor((from_duration - self.duration) / self.step)) + 1
+            # no frame fits in a segment shorter than the window
+            return max(0, int(np.floor((from_duration - self.duration) / self.step)) + 1)
 
         elif mode == 'loose':
             return int(np.floor((from_duration + self.duration) / self.step))
